@@ -133,7 +133,7 @@ def run(tier, seed):
     rng = random.Random(seed)
     thm = check_theorems("C05")
     known = set(e.get("key") for e in load_known_findings("C05"))
-    per = 6 if tier == "quick" else 60
+    per = 6 if tier == "quick" else 400
     mc, mmeta, gc, gmeta, hc, hmeta, bad = [], [], [], [], [], [], []
     khits = {}
     for name in NAMES:
